@@ -26,6 +26,8 @@ Names == <<"a", "b", "c", "d", "e", "f">>
 RECURSIVE Val(_, _, _), Wrong(_, _)
 Val(t, src, w) ==
   CASE IsOpt(t) /\ t # "opt_int" -> IF w = 1 THEN Val(Unopt(t), src, 1) ELSE VNull
+    [] t = "obj"     -> IF w = 1 THEN VSpec("Sub", 5) ELSE VSpec("Base", 6)
+    [] t = "any"     -> IF src = "argv" THEN VStr("ab") ELSE VDict([x \in {"k"} |-> 3])       \* (untyped: any value)
     [] t = "dictint" -> IF w = 1 THEN VDict([x \in {"k"} |-> 3]) ELSE VDict(EmptyFn)
     [] t = "tupis"   -> IF w = 1 THEN VTup(4, "y") ELSE VTup(5, "z")
     [] t = "unionis" -> IF w = 1 THEN VStr("ab") ELSE (IF src = "argv" THEN VInt(12) ELSE VStr("7"))
@@ -38,6 +40,8 @@ Val(t, src, w) ==
 Wrong(t, src) ==
   CASE IsOpt(t) /\ t # "opt_int" -> Wrong(Unopt(t), src)
     [] t \in {"dictint", "tupis"} -> VInt(3)
+    [] t = "obj"     -> VInt(3)
+    [] t = "any"     -> VInt(3)                                       \* (nothing is wrong for an untyped parameter)
     [] t = "unionis" -> VBool(TRUE)                                   \* (a word: every text is a str)
     [] t = "int"     -> VStr("ab")
     [] t = "str"     -> IF src = "argv" THEN VBool(TRUE) ELSE VInt(12)      \* on the command line every text is a str
@@ -212,14 +216,14 @@ TLeaves(shape, j1, j2, j3) ==
 RECURSIVE Words(_), NestMap(_, _)
 Words(path) == IF path = << >> THEN << >> ELSE <<PosTok(VStr(Head(path)))>> \o Words(Tail(path))
 NestMap(path, m) == IF path = << >> THEN m ELSE [x \in {Head(path)} |-> VMap(NestMap(Tail(path), m))]
-BuildT(id) ==
-  LET shape == id[2] j1 == id[3] j2 == id[4] j3 == id[5] which == id[6] s == id[7] form == id[8]
-      leaves == TLeaves(shape, j1, j2, j3)
+BuildTWith(id, leaves) ==
+  LET which == id[6] s == id[7] form == id[8]
       lf == leaves[((which - 1) % Len(leaves)) + 1]
       iscls == lf.c.k = "cls"
       ps == lf.c.params
       mp == IF iscls THEN lf.c.methods[1].params ELSE << >>
-      tail == IF iscls THEN <<PosTok(VStr("m1"))>> \o LevelToks(mp, PalModes(mp, s + 1), TRUE, 0) ELSE << >>
+      mn == IF iscls THEN lf.c.methods[1].name ELSE ""                 \* the method that is called: the first one
+      tail == IF iscls THEN <<PosTok(VStr(mn))>> \o LevelToks(mp, PalModes(mp, s + 1), TRUE, 0) ELSE << >>
       explicit == Words(lf.path) \o LevelToks(ps, PalModes(ps, s), TRUE, s % 2) \o tail
       section == LevelMap(ps, PalModes(ps, s))
       rootcfg == <<CfgTok(NestMap(lf.path, section))>>
@@ -228,13 +232,14 @@ BuildT(id) ==
             [] form = 2 -> (IF DOMAIN section = {} \/ iscls THEN explicit ELSE rootcfg)                                       \* implicit selection by config
             [] form = 3 -> (IF DOMAIN section = {} THEN explicit ELSE rootcfg \o Words(lf.path) \o tail)                      \* config first, then the words
             [] form = 4 -> Words(FrontSeq(lf.path))                                                                          \* stops before the leaf
-            [] form = 6 -> <<CfgTok(FullMap([leaves |-> leaves], << >>, lf.path \o (IF iscls THEN <<"m1">> ELSE << >>), TRUE))>>     \* selected inside the config at every level
-            [] form = 7 -> <<CfgTok(FullMap([leaves |-> leaves], << >>, lf.path \o (IF iscls THEN <<"m1">> ELSE << >>), FALSE))>>    \* implicit at every level, sibling sections
+            [] form = 6 -> <<CfgTok(FullMap([leaves |-> leaves], << >>, lf.path \o (IF iscls THEN <<mn>> ELSE << >>), TRUE))>>     \* selected inside the config at every level
+            [] form = 7 -> <<CfgTok(FullMap([leaves |-> leaves], << >>, lf.path \o (IF iscls THEN <<mn>> ELSE << >>), FALSE))>>    \* implicit at every level, sibling sections
             [] form = 8 -> LET kk == IF s > Len(lf.path) THEN Len(lf.path) ELSE s                                                    \* --config after kk words (root, after a group name, after the leaf's name),
                                at == SubSeq(lf.path, 1, kk)                                                                          \*   with sections for ALL siblings and no "subcommand" key; the words name the component
-                           IN Words(at) \o <<CfgTok(FullMap([leaves |-> leaves], at, lf.path \o (IF iscls THEN <<"m1">> ELSE << >>), FALSE))>>
-                              \o Words(SubSeq(lf.path, kk + 1, Len(lf.path))) \o (IF iscls THEN <<PosTok(VStr("m1"))>> ELSE << >>) \o OptTail(IF iscls THEN mp ELSE ps)
+                           IN Words(at) \o <<CfgTok(FullMap([leaves |-> leaves], at, lf.path \o (IF iscls THEN <<mn>> ELSE << >>), FALSE))>>
+                              \o Words(SubSeq(lf.path, kk + 1, Len(lf.path))) \o (IF iscls THEN <<PosTok(VStr(mn))>> ELSE << >>) \o OptTail(IF iscls THEN mp ELSE ps)
             [] OTHER    -> Words(FrontSeq(lf.path)) \o <<PosTok(VStr("zz"))>>)
+BuildT(id) == BuildTWith(id, TLeaves(id[2], id[3], id[4], id[5]))
 TS == IF Thorough THEN {0, 3, 4, 8} ELSE {3}
 TJ == IF Thorough THEN 1..NPF ELSE {2, 3, 5, 10}
 TX == {<<"T", sh, j1, j2, j3, w, 0, f>> : sh \in 1..6, j1 \in TJ, j2 \in {4, 6, 10}, j3 \in {1, 3}, w \in 1..3, f \in 6..7}
@@ -243,10 +248,157 @@ TX == {<<"T", sh, j1, j2, j3, w, 0, f>> : sh \in 1..6, j1 \in TJ, j2 \in {4, 6, 
       \cup {<<"T", 8, j1, j2, 3, w, 0, 1>> : j1 \in TJ, j2 \in {4, 6}, w \in 1..3}
 T == {<<"T", sh, j1, j2, j3, w, s, f>> : sh \in 1..6, j1 \in TJ, j2 \in (IF Thorough THEN {1, 4, 6} ELSE {4, 6}), j3 \in {1, 3}, w \in 1..3, s \in TS, f \in 1..5}
 
-Ids == IF Thorough THEN F1 \cup F2 \cup FN(3) \cup FN(4) \cup FN(5) \cup FN(6) \cup F3full \cup K1 \cup K2 \cup K3 \cup KX \cup T \cup TX
-       ELSE F1 \cup F2 \cup FN(3) \cup FN(4) \cup K1 \cup K2 \cup K3 \cup KX \cup T \cup TX
+
+\* TN: component, group and method names that are also attributes of jsonargparse's Namespace (get, update, pop, clone, items,
+\*     keys, values): lists of such functions, nested dicts whose groups AND functions are called like that, classes with such
+\*     methods (alone, in a list, inside a group) -- selected by words, by "subcommand" keys of a config, implicitly by section,
+\*     and with sibling sections + words (forms 1, 3, 6, 7, 8 of T).  r rotates the names through every role.
+NsNames == <<"get", "update", "pop", "clone", "items", "keys", "values">>
+NsN(r, i) == NsNames[((r + i) % 7) + 1]
+NsPairs == << <<"get", "items">>, <<"items", "keys">>, <<"keys", "values">>, <<"clone", "pop">>, <<"pop", "update">>, <<"update", "values">>, <<"clone", "get">> >>   \* (methods in sorted order)
+TNLeaves(shape, r, j1, j2, j3) ==
+  LET mp == NsPairs[(r % 7) + 1]
+      KK == Cls("K", Pal[j1], <<Meth(mp[1], Pal[j2]), Meth(mp[2], Pal[j3])>>)
+  IN CASE shape = 1 -> <<Leaf(<<NsN(r, 1)>>, Fn(NsN(r, 1), Pal[j1])), Leaf(<<NsN(r, 2)>>, Fn(NsN(r, 2), Pal[j2])), Leaf(<<NsN(r, 3)>>, Fn(NsN(r, 3), Pal[j3]))>>
+       [] shape = 2 -> <<Leaf(<<NsN(r, 1), NsN(r, 2)>>, Fn(NsN(r, 2), Pal[j1])), Leaf(<<NsN(r, 1), NsN(r, 3)>>, Fn(NsN(r, 3), Pal[j2])),      \* {"n1": {"n2": f, "n3": g}, "n4": {"n1": h}}
+                         Leaf(<<NsN(r, 4), NsN(r, 1)>>, Fn(NsN(r, 1), Pal[j3]))>>
+       [] shape = 3 -> <<Leaf(<< >>, KK)>>
+       [] shape = 4 -> <<Leaf(<<NsN(r, 1), "K">>, KK), Leaf(<<NsN(r, 1), NsN(r, 2)>>, Fn(NsN(r, 2), Pal[j3])), Leaf(<<NsN(r, 3)>>, Fn(NsN(r, 3), Pal[j3]))>>
+       [] OTHER     -> <<Leaf(<<"K">>, KK), Leaf(<<NsN(r, 1)>>, Fn(NsN(r, 1), Pal[j3]))>>
+TN == {<<"TN", sh, r, j1, j2, w, s, f>> : sh \in 1..5, r \in 0..6, j1 \in (IF Thorough THEN {2, 3, 5} ELSE {3}), j2 \in (IF Thorough THEN {4, 6} ELSE {4}),
+                                          w \in (IF Thorough THEN 1..3 ELSE 1..2), s \in {0}, f \in {1, 3, 6, 7, 8}}
+      \cup {<<"TN", sh, r, 3, 4, w, 1, 8>> : sh \in {2, 4}, r \in 0..6, w \in 1..2}                       \* --config after the group name
+BuildTN(id) == LET c == BuildTWith(<<"T", id[2], id[4], id[5], 3, id[6], id[7], id[8]>>, TNLeaves(id[2], id[3], id[4], id[5], 3))
+               IN Case(id, c.aspos, c.leaves, c.argv)
+
+\* ================================================================ round 4: extension universes
+\* XR: what the component returns (falsy values, a coroutine function) and what happens when it raises
+FnX(name, ps, rz, rk, co) == [k |-> "fn", name |-> name, params |-> ps, methods |-> << >>, rz |-> rz, rk |-> rk, co |-> co]
+ClsX(name, ps, ms, rz) == [k |-> "cls", name |-> name, params |-> ps, methods |-> ms, rz |-> rz]
+MethX(name, ps, rz, rk, co) == [name |-> name, params |-> ps, rz |-> rz, rk |-> rk, co |-> co]
+RzKinds == <<"", "boom", "typeerr", "keyerr">>
+RkKinds == <<"tok", "none", "zero", "empty", "false">>
+XR == {<<"XR", sw[1], sw[2], rr[1], rr[2], co, form>> : sw \in {<<1, 1>>, <<2, 1>>, <<2, 2>>, <<2, 3>>, <<3, 1>>, <<3, 2>>, <<4, 1>>},
+          rr \in ({0} \X (1..5)) \cup ((1..3) \X {1}), co \in 0..1, form \in 1..3}
+BuildXR(id) ==
+  LET shape == id[2] who == id[3] rz == RzKinds[id[4] + 1] rk == RkKinds[id[5]] co == id[6] = 1 form == id[7]
+      pa == Pal[3]                      \* (a: int, b: str = "dflt")
+      given == CASE form = 1 -> <<PosTok(VInt(3)), Tok("opt", "b", VStr("ab"))>>
+                 [] form = 2 -> <<CfgTok([x \in {"a", "b"} |-> IF x = "a" THEN VInt(3) ELSE VStr("cd")])>>
+                 [] OTHER    -> <<PosTok(VStr("ab"))>>                                  \* ill-typed: nothing may be called
+      K == ClsX("K", Pal[2], <<IF who = 2 THEN MethX("m1", pa, rz, rk, co) ELSE IF who = 1 THEN MethX("m1", pa, "", rk, co) ELSE Meth("m1", pa),
+                               IF who = 3 THEN MethX("m2", pa, rz, rk, co) ELSE Meth("m2", Pal[1])>>, IF who = 1 THEN rz ELSE "")
+      mname == IF who = 3 THEN "m2" ELSE "m1"
+  IN CASE shape = 1 -> Case(id, TRUE, <<Leaf(<< >>, FnX("f", pa, rz, rk, co))>>, given)
+       [] shape = 2 -> Case(id, TRUE, <<Leaf(<< >>, K)>>, <<PosTok(VInt(4)), PosTok(VStr(mname))>> \o given)
+       [] shape = 3 -> Case(id, TRUE, <<Leaf(<<"f">>, IF who = 1 THEN FnX("f", pa, rz, rk, co) ELSE Fn("f", pa)),
+                                        Leaf(<<"g">>, IF who = 2 THEN FnX("g", pa, rz, rk, co) ELSE Fn("g", Pal[1]))>>,
+                            <<PosTok(VStr(IF who = 1 THEN "f" ELSE "g"))>> \o given)
+       [] OTHER     -> Case(id, TRUE, <<Leaf(<<"grp", "K">>, K), Leaf(<<"grp", "f">>, Fn("f", pa)), Leaf(<<"h">>, FnX("h", Pal[1], "boom", "tok", FALSE))>>,   \* a raising sibling that is not selected
+                            <<PosTok(VStr("grp")), PosTok(VStr("K")), PosTok(VInt(4)), PosTok(VStr(mname))>> \o given)
+
+\* XS / XK / XT: auto_cli(set_defaults={dotted key: value}); the values differ from every value used on the command line
+SdV(t) == LET u == IF IsOpt(t) THEN Unopt(t) ELSE t IN
+          CASE u = "int" -> VInt(9) [] u = "str" -> VStr("sd") [] u = "bool" -> VBool(TRUE) [] u = "listint" -> VList(<<9>>)
+            [] u = "enum" -> VEnum("A") [] u = "dictint" -> VDict([x \in {"s"} |-> 9]) [] u = "tupis" -> VTup(9, "s") [] u = "unionis" -> VStr("cd")
+SdE(l, p) == [lvl |-> l, n |-> p.n, v |-> SdV(p.t)]
+CaseSd(id, c, sd) == [aid |-> id, aspos |-> c.aspos, leaves |-> c.leaves, argv |-> c.argv, sd |-> sd]
+SdOfLevel(c0, l) == LET ps == SelectSeq(LvlParams(c0, l), LAMBDA p : ~RefHidden(p)) IN [i \in 1..Len(ps) |-> SdE(l, ps[i])]
+RECURSIVE ConcatAll(_)
+ConcatAll(ss) == IF ss = << >> THEN << >> ELSE Head(ss) \o ConcatAll(Tail(ss))
+LevelsOf(leaves) == ConcatAll([i \in 1..Len(leaves) |-> <<leaves[i].path>> \o [j \in 1..Len(leaves[i].c.methods) |-> leaves[i].path \o <<leaves[i].c.methods[j].name>>]])
+SdAll(c0, keep(_)) == LET ls == SelectSeq(LevelsOf(c0.leaves), keep) IN ConcatAll([i \in 1..Len(ls) |-> SdOfLevel(c0, ls[i])])
+XSM == IF Thorough THEN 1..NM ELSE {1, 2, 3, 4, 8, 10}
+XS == {<<"XS", v, m, ap, sk>> : v \in 1..(NV - 1), m \in XSM, ap \in 0..1, sk \in (IF Thorough THEN 1..3 ELSE {1, 3})}
+BuildXS(id) == LET v == id[2] m == id[3] ap == id[4] = 1 sk == id[5]
+                   sig == Sig(<<Variants[v], WithDef[1]>>)
+               IN [aid |-> id, aspos |-> ap, leaves |-> <<Leaf(<< >>, Fn("f", sig))>>, argv |-> LevelToks(sig, <<Modes[m], "absent">>, ap, 0),
+                   sd |-> (IF sk \in {1, 3} THEN <<SdE(<< >>, sig[1])>> ELSE << >>) \o (IF sk \in {2, 3} THEN <<SdE(<< >>, sig[2])>> ELSE << >>)]
+XK == {<<"XK", i0, j, form, w>> : i0 \in (IF Thorough THEN {2, 3, 5, 6, 10} ELSE {2, 5, 10}), j \in (IF Thorough THEN {2, 3, 4, 5, 6, 10} ELSE {3, 4, 6}),
+                                  form \in {1, 2, 4, 8}, w \in 1..3}
+BuildXK(id) == LET c == BuildK(<<"K", id[2], <<id[3], 3>>, 1, 0, id[4]>>) w == id[5]
+               IN CaseSd(id, c, SdAll(c, LAMBDA l : (l = << >> /\ w \in {1, 3}) \/ (l # << >> /\ w \in {2, 3})))
+XT == {<<"XT", sh, j1, j2, w, form>> : sh \in {1, 3, 4, 5, 6}, j1 \in (IF Thorough THEN {2, 3, 5} ELSE {3, 5}), j2 \in {4, 6}, w \in 1..3,
+                                       form \in (IF Thorough THEN {1, 3, 8} ELSE {1, 8})}
+BuildXT(id) == LET c == BuildT(<<"T", id[2], id[3], id[4], 3, id[5], 0, id[6]>>) IN CaseSd(id, c, SdAll(c, LAMBDA l : TRUE))
+
+\* E1 / EK / ET: the environment (default_env=True through auto_cli's parser kwargs)
+EnvV(t) == LET u == IF IsOpt(t) THEN Unopt(t) ELSE t IN
+           CASE u = "int" -> VInt(8) [] u = "str" -> VStr("ev") [] u = "bool" -> VBool(TRUE) [] u = "listint" -> VList(<<8>>)
+             [] u = "enum" -> VStr("A") [] u = "dictint" -> VDict([x \in {"e"} |-> 8]) [] u = "tupis" -> VTup(8, "e") [] u = "unionis" -> VStr("ev")
+EVar(l, n, v) == [k |-> "evar", lvl |-> l, n |-> n, v |-> v]
+ESel(l, s) == [k |-> "esel", lvl |-> l, v |-> VStr(s)]
+ECfg(m) == [k |-> "ecfg", lvl |-> << >>, m |-> m]
+CaseEnv(id, c, on, env) == [aid |-> id, aspos |-> c.aspos, leaves |-> c.leaves, argv |-> c.argv, envon |-> on, env |-> env]
+EnvOfLevel(c0, l) == LET ps == SelectSeq(LvlParams(c0, l), LAMBDA p : ~RefHidden(p)) IN [i \in 1..Len(ps) |-> EVar(l, ps[i].n, EnvV(ps[i].t))]
+EnvAll(c0) == LET ls == LevelsOf(c0.leaves) IN ConcatAll([i \in 1..Len(ls) |-> EnvOfLevel(c0, ls[i])])
+\* <..>SUBCOMMAND variables along the chain sel
+ESelChain(sel) == [i \in 1..Len(sel) |-> ESel(SubSeq(sel, 1, i - 1), sel[i])]
+E1V == IF Thorough THEN 1..(NV - 1) ELSE {1, 2, 3, 4, 5, 6, 8, 10, 13, 15, 16, 20, 22}
+E1M == IF Thorough THEN {1, 2, 3, 4, 5, 6} ELSE {1, 2, 4}
+E1 == {<<"E1", v, em, m, ap, 1>> : v \in E1V, em \in 1..5, m \in E1M, ap \in 0..1} \cup {<<"E1", v, 1, 1, ap, 0>> : v \in E1V, ap \in 0..1}
+BuildE1(id) == LET v == id[2] em == id[3] m == id[4] ap == id[5] = 1 on == id[6] = 1
+                   sig == Sig(<<Variants[v], WithDef[1]>>)
+                   t == sig[1].t
+                   env == CASE em = 1 -> <<EVar(<< >>, "a", EnvV(t))>>                                          \* the variable of the parameter
+                            [] em = 2 -> <<EVar(<< >>, "a", Wrong(t, "argv")), EVar(<< >>, "zz", VInt(1))>>       \* ill-typed; a variable that names nothing
+                            [] em = 3 -> <<ECfg([x \in {"a"} |-> Val(t, "cfg", 1)])>>                          \* the config variable
+                            [] em = 4 -> <<EVar(<< >>, "a", EnvV(t)), ECfg([x \in {"a", "b"} |-> IF x = "a" THEN Val(t, "cfg", 1) ELSE VInt(3)])>>   \* both: the parameter's variable wins
+                            [] OTHER  -> <<EVar(<< >>, "b", VInt(8))>>
+               IN [aid |-> id, aspos |-> ap, leaves |-> <<Leaf(<< >>, Fn("f", sig))>>, argv |-> LevelToks(sig, <<Modes[m], "absent">>, ap, 0), envon |-> on, env |-> env]
+\* a class: every visible parameter of the constructor and of the methods has its variable; forms 1, 2, 8 of K, and
+\*   form 9: nothing on the command line, the method is selected by the SUBCOMMAND variable
+\*   form 10: the SUBCOMMAND variable names m2, the command line (form 1) names m1
+EK == {<<"EK", i0, j, form>> : i0 \in (IF Thorough THEN {2, 3, 5, 6, 10} ELSE {2, 5, 10}), j \in (IF Thorough THEN {2, 3, 4, 5, 6, 10} ELSE {3, 4, 6}), form \in {1, 2, 8, 9, 10, 11, 12}}
+BuildEK(id) == LET form == id[4]
+                   c == BuildK(<<"K", id[2], <<id[3], 3>>, 1, 0, IF form >= 10 THEN 1 ELSE form>>)
+               IN CASE form = 9  -> CaseEnv(id, [c EXCEPT !.argv = << >>], TRUE, EnvAll(c) \o ESelChain(<<"m1">>))
+                    [] form = 10 -> CaseEnv(id, c, TRUE, EnvAll(c) \o ESelChain(<<"m2">>))
+                    \* 11 / 12: everything in the config VARIABLE (sections for all methods), the method selected implicitly / by the SUBCOMMAND variable (recorded deviation)
+                    [] form = 11 -> CaseEnv(id, [c EXCEPT !.argv = << >>], TRUE, <<ECfg(FullMap(c, << >>, <<"m1">>, FALSE))>>)
+                    [] form = 12 -> CaseEnv(id, [c EXCEPT !.argv = << >>], TRUE, <<ECfg(FullMap(c, << >>, <<"m1">>, FALSE))>> \o ESelChain(<<"m1">>))
+                    [] OTHER     -> CaseEnv(id, c, TRUE, EnvAll(c))
+\* lists / nested dicts: variables for every level; form 1 (words), 8 (config with sibling sections, words, options),
+\*   form 9: only SUBCOMMAND variables along the path, form 10: SUBCOMMAND variables select the NEXT leaf, the words this one
+ET == {<<"ET", sh, j1, j2, w, form>> : sh \in {1, 3, 4, 5, 6}, j1 \in (IF Thorough THEN {2, 3, 5} ELSE {3, 5}), j2 \in {4, 6}, w \in 1..3, form \in {1, 8, 9, 10, 11, 12}}
+BuildET(id) == LET form == id[6]
+                   c == BuildT(<<"T", id[2], id[3], id[4], 3, id[5], 0, IF form >= 9 THEN 1 ELSE form>>)
+                   lf == c.leaves[((id[5] - 1) % Len(c.leaves)) + 1]
+                   nx == c.leaves[(id[5] % Len(c.leaves)) + 1]
+                   chain(x) == x.path \o (IF x.c.k = "cls" THEN <<"m1">> ELSE << >>)
+               IN CASE form = 9  -> CaseEnv(id, [c EXCEPT !.argv = << >>], TRUE, EnvAll(c) \o ESelChain(chain(lf)))
+                    [] form = 10 -> CaseEnv(id, c, TRUE, EnvAll(c) \o ESelChain(chain(nx)))
+                    [] OTHER     -> CaseEnv(id, c, TRUE, EnvAll(c))
+
+\* XU: parameters without a type hint, auto_cli(fail_untyped=False): alone, next to a typed required parameter, with
+\*     set_defaults, with the environment
+Untyped == << V("opt_any", FALSE, NoVal), V("opt_any", TRUE, VInt(2)), V("opt_any", TRUE, VStr("x")), V("opt_any", TRUE, VNull),
+              V("opt_any", TRUE, VBool(TRUE)), V("opt_any", TRUE, VList(<<1>>)) >>
+XU == {<<"XU", u, m, ap, x>> : u \in 1..Len(Untyped), m \in (IF Thorough THEN 1..NM ELSE {1, 3, 4, 8, 10}), ap \in 0..1, x \in (IF Thorough THEN 0..3 ELSE {0, 1, 3})}
+BuildXU(id) == LET u == id[2] m == id[3] ap == id[4] = 1 x == id[5]
+                   sig == IF x = 1 THEN Sig(<<Untyped[u], NoDef[1]>>) ELSE Sig(<<Untyped[u]>>)
+                   argv == IF x = 1 THEN LevelToks(sig, <<Modes[m], "opt">>, ap, 0) ELSE LevelToks(sig, <<Modes[m]>>, ap, 0)
+               IN [aid |-> id, aspos |-> ap, leaves |-> <<Leaf(<< >>, Fn("f", sig))>>, argv |-> argv,
+                   sd |-> IF x = 2 THEN <<[lvl |-> << >>, n |-> "a", v |-> VList(<<9>>)]>> ELSE << >>,
+                   envon |-> x = 3, env |-> IF x = 3 THEN <<EVar(<< >>, "a", VInt(8))>> ELSE << >>]
+
+\* XO: a parameter whose type is a class, given as a class_path / init_args spec (the instance must be what is passed):
+\*     alone, next to an int option, as constructor parameter of a class with a method
+ObjV == << V("obj", FALSE, NoVal), V("obj", TRUE, VNull), V("opt_obj", FALSE, NoVal) >>
+XO == {<<"XO", o, m, ap, x>> : o \in 1..3, m \in (IF Thorough THEN 1..NM ELSE {1, 2, 3, 4, 5, 8, 9}), ap \in 0..1, x \in 0..2}
+BuildXO(id) == LET o == id[2] m == id[3] ap == id[4] = 1 x == id[5]
+                   sig == IF x = 1 THEN Sig(<<ObjV[o], WithDef[1]>>) ELSE Sig(<<ObjV[o]>>)
+                   tks == IF x = 1 THEN LevelToks(sig, <<Modes[m], "opt">>, ap, 0) ELSE LevelToks(sig, <<Modes[m]>>, ap, 0)
+               IN IF x = 2 THEN Case(id, ap, <<Leaf(<< >>, Cls("K", sig, <<Meth("m1", Pal[3])>>))>>, tks \o <<PosTok(VStr("m1"))>> \o LevelToks(Pal[3], <<"pos", "absent">>, ap, 0))
+                  ELSE Case(id, ap, <<Leaf(<< >>, Fn("f", sig))>>, tks)
+XIds == XR \cup XS \cup XK \cup XT \cup E1 \cup EK \cup ET \cup XU \cup XO \cup TN
+
+Ids == XIds \cup (IF Thorough THEN F1 \cup F2 \cup FN(3) \cup FN(4) \cup FN(5) \cup FN(6) \cup F3full \cup K1 \cup K2 \cup K3 \cup KX \cup T \cup TX
+       ELSE F1 \cup F2 \cup FN(3) \cup FN(4) \cup K1 \cup K2 \cup K3 \cup KX \cup T \cup TX)
 CaseOf(id) == CASE id[1] = "F1" -> BuildF1(id) [] id[1] = "F2" -> BuildF2(id) [] id[1] = "FN" -> BuildFN(id)
                 [] id[1] = "F3" -> BuildF3(id) [] id[1] = "K" -> BuildK(id) [] id[1] = "T" -> BuildT(id)
+                [] id[1] = "XR" -> BuildXR(id) [] id[1] = "XS" -> BuildXS(id) [] id[1] = "XK" -> BuildXK(id) [] id[1] = "XT" -> BuildXT(id)
+                [] id[1] = "TN" -> BuildTN(id) [] id[1] = "XU" -> BuildXU(id) [] id[1] = "XO" -> BuildXO(id) [] id[1] = "E1" -> BuildE1(id) [] id[1] = "EK" -> BuildEK(id) [] id[1] = "ET" -> BuildET(id)
 
 \* one behaviour per case: the first step builds the case from its index (so that the workers share the work)
 Init == \E id \in Ids : /\ cs = Case(id, TRUE, << >>, << >>) /\ pc = "build" /\ toks = << >> /\ lvl = << >> /\ npos = 0
@@ -259,5 +411,5 @@ MCNext == ABuild \/ Next
 Spec == Init /\ [][MCNext]_vars
 
 \* ------------------------------------------------------------------ emission for the replay
-EmitCase == (Emit /\ Done) => PrintT(ToJson([id |-> cs.aid, aspos |-> cs.aspos, leaves |-> cs.leaves, argv |-> cs.argv, exp |-> AlgOutcome, at |-> IF out = "ok" THEN "ok" ELSE ret, dev |-> Deviation]))
+EmitCase == (Emit /\ Done) => PrintT(ToJson([id |-> cs.aid, aspos |-> cs.aspos, leaves |-> cs.leaves, argv |-> cs.argv, sd |-> CsSd(cs), envon |-> CsEnvOn(cs), env |-> CsEnv(cs), exp |-> AlgOutcome, at |-> IF out = "ok" THEN "ok" ELSE ret, dev |-> Deviation]))
 =============================================================================
